@@ -18,7 +18,7 @@ type c13Pair struct{ prev, next uint8 }
 // that registers and unsubscribes at chosen positions; its log must be: the state at subscription time, then
 // every later change exactly once, each callback's previous value equal to the preceding callback's new value.
 //
-//verif:h prop=C13 p.writes=3/4 cover=initial,chain,unsubscribed,nochange,transformed runs=5000000 timeout=250/900
+//verif:h prop=C13 p.writes=3/4 cover=initial,chain,unsubscribed,nochange,transformed runs=5000000 timeout=900/900
 func H_C13_variable_hist() {
 	// optionally a variable with a transformation function ("never decreases"): subscribers must only see
 	// changes of the stored (transformed) value
@@ -111,7 +111,7 @@ func H_C13_variable_hist() {
 
 // H_C13_set_hist: reactive Set; folding the reported mutations reproduces the contents.
 //
-//verif:h prop=C13 p.ops=2/3 cover=add,delete,apply,replace,compute,late-subscriber runs=5000000 timeout=250/900
+//verif:h prop=C13 p.ops=2/3 cover=add,delete,apply,replace,compute,late-subscriber runs=5000000 timeout=900/900
 func H_C13_set_hist() {
 	u := [3]uint8{verifrt.U8("k0"), verifrt.U8("k1"), verifrt.U8("k2")}
 	verifrt.Assume(u[0] != u[1] && u[1] != u[2] && u[0] != u[2])
@@ -203,7 +203,7 @@ func H_C13_event() {
 // H_C13_conc: two writers and a goroutine that subscribes and later unsubscribes. Callbacks of the one
 // subscription never overlap, none starts after unsubscribe returned, and the log is a consistent chain.
 //
-//verif:h prop=C13 preempt=2/3 cover=done,saw-update runs=30000000 timeout=280/900 steps=400000
+//verif:h prop=C13 preempt=2/3 cover=done,saw-update runs=30000000 timeout=900/900 steps=400000
 func H_C13_conc() {
 	v := NewVariable[uint8]()
 	var inCallback, overlap, late atomic.Bool
@@ -252,7 +252,7 @@ func H_C13_conc() {
 
 // H_C13_set_conc: a subscriber of a reactive Set registering while two writers mutate it.
 //
-//verif:h prop=C13 preempt=2/3 cover=done runs=30000000 timeout=280/900 steps=400000
+//verif:h prop=C13 preempt=2/3 cover=done runs=30000000 timeout=900/900 steps=400000
 func H_C13_set_conc() {
 	s := NewSet[uint8](1)
 	folded := ds.NewSet[uint8]()
